@@ -3,19 +3,20 @@ from trkgen import *
 
 ID = "C12"
 THEOREM_MODULE = "SimVerif.Props.C12"
-NONTRIVIAL_FLAGS = {"visual-attachment", "appearance-contest-lost", "appearance-and-positional", "competition", "feature-not-collectable", "gallery-full"}
+NONTRIVIAL_FLAGS = {"appearance-votes", "track-below-minimal-length", "feature-not-usable", "all-features-over-threshold", "visual-attachment", "appearance-contest-lost", "appearance-and-positional", "competition", "feature-not-collectable", "gallery-full"}
 RULE = ("VisualSORT and BatchVisualSORT histories with crossing objects, look-alike objects (embeddings within the visual threshold of each other), missing and low-quality features, occlusions and clutter, over option combinations "
         "(Euclidean / cosine thresholds, IoU / Mahalanobis, min votes 1..3, minimal track length 1..3, max observations 1..8, use / collect quality, minimal area, own-area shares); the distance table of every call (positional weights and feature distances) "
         "is taken from the tracker's own store and the choice read off the records is validated against the cascade model: appearance stage = best-fit over the feature distances, then positional stage = maximum-weight assignment over the remaining detections and tracks; "
         "non-trivial = a call with a visual attachment, a lost appearance contest, both stages active, competing detections; distinct = distinct request line")
 TRUSTED_BASE = ["Lean 4.33 kernel", "axioms: propext, Quot.sound, Classical.choice (at most)",
                 "models SimVerif/Model/Tracker.lean (`visualDecided`, `positionalRest`, `validVisualChoice`) and Model/Voting.lean (best-fit) tied to src/trackers/visual_sort/{voting,simple_api,batch_api}.rs, src/track/voting/best.rs by the differential run",
-                "the per-pair gates of VisualMetric (feature usable, minimal collected features, distance within the visual threshold) are part of the numeric kernel whose table is taken from the implementation; its structure is checked by `vmetric` requests where registered"]
+                "the per-pair appearance gate of VisualMetric (feature usable: area, quality, own-area share >= the use thresholds; track has >= visual_minimal_track_length collected features; one vote per stored feature within the visual threshold, weight = distance / 1 - cosine) is recomputed by the driver from the request's feature vectors and the model's galleries and compared with the implementation's table on every call (guard band 5e-4 around the threshold; with spatio-temporal constraints configured, completeness only for pairs the table mentions)",
+                "positional weights (IoU / Mahalanobis, confidence scaling) are taken from the implementation's table (C02, C07, C08 cover them)"]
 ASSUMPTIONS = ["no exact ties between appearance vote weights (ties: the implementation's resolution is accepted when consistent)", "threshold > 0"]
 LEVEL_TEXT = ("Lean 4 theorems about the cascade model, for every distance table: the record reports visual voting exactly for detections attached by the appearance stage; a detection whose heaviest appearance claim loses the contest is never attached to the contested track and starts a new track; "
               "a track is awarded by appearance to at most one detection, the heaviest claimant; detections without an appearance claim are resolved by a valid (gated, one-to-one, maximum-weight) positional choice over exactly the distances whose detection was not decided and whose track was not taken by appearance; "
               "a detection with no claim and no gated positional pair starts a new track. Differential run of the real VisualSORT trackers with validated choices.")
-LEVEL_NOTE = "Trusted: Lean kernel; model<->code tie sampled; numeric kernel (feature distances, use thresholds) observed through the implementation's own distance table."
+LEVEL_NOTE = "Trusted: Lean kernel; model<->code tie sampled; the appearance gate (use thresholds, minimal track length, threshold test) is recomputed by the driver, the positional weights are observed through the implementation's own distance table."
 TECHNIQUE = "Lean 4 proof (case analysis over the cascade, best-fit greedy characterisation) with differential correspondence check"
 
 
